@@ -150,6 +150,19 @@ func (mr *msgReader) putFlateReader() {
 	}
 }
 
+// abandonFlate forgets the flate objects of a compressed message that is still being read.
+// A close frame is handled from inside that read (the flate reader pulls frames through
+// flateBufio), so these objects are still in use further up the stack when the connection
+// is torn down and must not be handed back to the pools for another connection to reuse.
+func (mr *msgReader) abandonFlate() {
+	if mr.flateReader == nil {
+		return
+	}
+	mr.flateReader = nil
+	mr.flateBufio = nil
+	mr.dict = nil
+}
+
 func (mr *msgReader) close() {
 	mr.c.vEv("MrCloseConn", 0, 0, 0, 0)
 	mr.c.readMu.forceLock()
@@ -348,6 +361,7 @@ func (c *Conn) handleControl(ctx context.Context, h header) (err error) {
 	c.vEv("CloseRcvd", int64(ce.Code), int64(len(ce.Reason)), 0, 0)
 	err = fmt.Errorf("received close frame: %w", ce)
 	c.writeClose(ce.Code, ce.Reason)
+	c.msgReader.abandonFlate()
 	c.readMu.unlock()
 	c.close()
 	return err
@@ -429,7 +443,7 @@ func (mr *msgReader) Read(p []byte) (n int, err error) {
 
 	n, err = mr.limitReader.Read(p)
 	mr.c.vErr("MrRead", err, int64(n))
-	if mr.flate && mr.flateContextTakeover() {
+	if mr.flate && mr.flateContextTakeover() && mr.dict != nil {
 		p = p[:n]
 		mr.dict.write(p)
 	}
